@@ -57,10 +57,14 @@ fn std(
 /// Three keys; every write is flushed and (optionally) followed by a leveled compaction with the
 /// "always over capacity" parameter set 2 of `TreeCfg::small`.
 fn cascade_alphabet() -> Alphabet {
+    cascade_alphabet_with(false)
+}
+
+fn cascade_alphabet_with(big: bool) -> Alphabet {
     let mut al = Alphabet::default();
     for k in 0..3u8 {
         for del in [false, true] {
-            let w = if del { Op::Del { k } } else { Op::Put { k, big: false } };
+            let w = if del { Op::Del { k } } else { Op::Put { k, big } };
             al.extra.push(Op::Seq { ops: vec![w.clone(), Op::Flush { w: Wm::Tight }, Op::Leveled { w: Wm::Tight, p: 2 }] });
             al.extra.push(Op::Seq { ops: vec![w, Op::Flush { w: Wm::Tight }] });
         }
@@ -220,14 +224,14 @@ pub fn scenarios(prop: &str, tier: &str) -> Vec<Arc<dyn Scenario>> {
                     v.push(std(&format!("{prop}-flushy-k3"), TreeCfg::small(keys_abc()), af, bs(3, 3, 0, 1, 0), seeds_upto(1), oracle));
                 }
             }
-            if prop == "C01" || prop == "C07" {
+            {
                 // leveled cascade: with a 1-byte level target every level is over capacity, so the
                 // strategy keeps opening a new L1 above the populated levels and picks L(k) -> L(k+1)
                 // merges by score; three keys, every write flushed and followed by one or two
                 // leveled compactions
                 let mut al = cascade_alphabet();
                 al.reopen = !quick;
-                let bd = if quick { bs(4, 1, 0, 0, 0) } else { bs(5, 2, 0, 1, 0) };
+                let bd = if quick { bs(3, 1, 0, 0, 0) } else { bs(5, 2, 0, 1, 0) };
                 v.push(std(&format!("{prop}-cascade-k3"), TreeCfg::small(keys_abc()), al, bd, vec![vec![]], oracle));
             }
             if prop == "C01" || prop == "C07" {
@@ -778,6 +782,19 @@ pub fn scenarios(prop: &str, tier: &str) -> Vec<Arc<dyn Scenario>> {
                 let seeds = vec![vec![all.clone(), fl.clone(), some.clone(), fl.clone()], vec![all.clone(), fl.clone(), Op::Snap, some.clone(), fl.clone()]];
                 let bd = if quick { bs(1, 2, 0, 1, 0) } else { bs(2, 3, 1, 1, 0) };
                 push(format!("{prop}-relocating-rotation"), c, &am, bd, seeds);
+            }
+            {
+                // large values travelling through a cascade of over-full levels: blob links move from
+                // table to table in merges chosen by score, blob files go stale and are rewritten
+                let mut c = TreeCfg::small(crate::driver::keys_abc());
+                c.blob = Some(BlobCfg { threshold: 16, file_target: 64 << 20, staleness: 0.0, age_cutoff: 1.0 });
+                c.cache_bytes = 0;
+                let mut ac = cascade_alphabet_with(true);
+                ac.snap = prop == "C08";
+                ac.no_unsnap = true;
+                ac.reopen = !quick;
+                let bd = if quick { bs(3, 1, 1, 0, 0) } else { bs(4, 2, 1, 1, 0) };
+                push(format!("{prop}-cascade-k3"), c, &ac, bd, vec![vec![]]);
             }
             {
                 // three blobs in one file, rewrite threshold 0.5: a compaction first only marks the
